@@ -14,7 +14,9 @@ pub(crate) trait LWEDecryptDefault<BE: Backend>: Sized + VecZnxNormalize<BE> + V
     where
         A: LWEInfos,
     {
-        let lvl_0: usize = LWEPlaintext::bytes_of(infos.size());
+        // a take from scratch starts on an aligned address: the temporary plaintext (8 * size bytes) costs a whole
+        // alignment unit before the normalisation temporaries
+        let lvl_0: usize = LWEPlaintext::bytes_of(infos.size()).next_multiple_of(poulpy_hal::DEFAULTALIGN);
         let lvl_1: usize = self.vec_znx_normalize_tmp_bytes();
 
         lvl_0 + lvl_1
